@@ -92,7 +92,8 @@ func c04(args []string) error {
 		parts := strings.Split(mode, ":")
 		if parts[0] == "kill" || parts[0] == "stop" {
 			k, _ := strconv.Atoi(parts[2])
-			run.extra = func(p string, a ...any) {
+			// after recording: the event of the point at which the process dies is in the trace
+			run.after = func(p string, a ...any) {
 				if p != parts[1] {
 					return
 				}
@@ -111,7 +112,7 @@ func c04(args []string) error {
 			}
 			run.annotate = func(ev map[string]any) { // origin events count as points too ("req")
 				if ev["ev"] == parts[1] {
-					run.extra(parts[1])
+					run.after(parts[1])
 				}
 			}
 		}
@@ -140,8 +141,15 @@ func c04(args []string) error {
 		}
 	}
 	// ---- run2: what was left behind, then resume
-	rows, _ := run.Rows()
-	run.tr.Emit(map[string]any{"ev": "rows", "when": "before-run2", "rows": rows})
+	rows, rerr := run.Rows()
+	if rerr != nil {
+		rows, rerr = run.RowsRecover()
+	}
+	rev := map[string]any{"ev": "rows", "when": "before-run2", "rows": rows}
+	if rerr != nil { // a read-only connection cannot replay the journal a killed writer left behind
+		rev["err"], rev["rows"] = rerr.Error(), []map[string]any{}
+	}
+	run.tr.Emit(rev)
 	wdir := filepath.Join(run.cfg.JobPath, "warcs")
 	ents, _ := os.ReadDir(wdir)
 	for _, e := range ents {
@@ -166,8 +174,12 @@ func c04(args []string) error {
 	}
 	run.Start()
 	drained := run.WaitDrained(45 * time.Second)
-	rows, _ = run.Rows()
-	run.tr.Emit(map[string]any{"ev": "rows", "when": "after-run2", "rows": rows, "drained": drained})
+	rows, rerr = run.Rows()
+	rev = map[string]any{"ev": "rows", "when": "after-run2", "rows": rows, "drained": drained}
+	if rerr != nil {
+		rev["err"], rev["rows"] = rerr.Error(), []map[string]any{}
+	}
+	run.tr.Emit(rev)
 	run.Stop(60 * time.Second)
 	run.tr.Emit(map[string]any{"ev": "run.end"})
 	return run.tr.Close()
